@@ -18,7 +18,7 @@ TReset == IsEvent("Reset") /\ now' = 0 /\ flows' = [k \in {} |-> 0] /\ queue' = 
 SnapFlows == [k \in { ev.flows[i].k : i \in DOMAIN ev.flows } |->
                 LET s == ev.flows[CHOOSE i \in DOMAIN ev.flows : ev.flows[i].k = k] IN
                 [ sp |-> s.sp, dp |-> s.dp, sns |-> s.sns, dns |-> s.dns, ftype |-> s.ftype, egress |-> s.egress,
-                  ingress |-> s.ingress, prio |-> s.prio, start |-> s.start, end |-> s.end, endS |-> s.endS, endD |-> s.endD,
+                  ingress |-> s.ingress, prio |-> s.prio, cip |-> s.cip, start |-> s.start, end |-> s.end, endS |-> s.endS, endD |-> s.endD,
                   com |-> s.com, frS |-> s.frS, frD |-> s.frD, tp |-> s.tp, tpS |-> s.tpS, tpD |-> s.tpD,
                   reason |-> s.reason, ready |-> s.ready, retries |-> s.retries, filled |-> s.filled ]]
 SnapQueue == { [key |-> ev.heap[i].k, act |-> ev.heap[i].act, inact |-> ev.heap[i].inact] : i \in DOMAIN ev.heap }
